@@ -38,6 +38,8 @@ func TestMain(m *testing.M) {
 	core.DeclareProbes("redraw-loop-taken", "start-from-parsed-handle", "branch-to-earlier-handle", "refused-disable-primary", "refused-delete-primary",
 		"refused-setprimary-nonenabled", "op-on-absent-id", "addkey-idreq-collision", "addkey-idreq-kept", "same-key-twice", "readd-deleted-fixed-id",
 		"handle-fails-no-primary", "old-handle-reinspected", "enable-destroyed", "error-leaves-unchanged-checked", "nil-template", "unknown-prefix-template", "add-custom-key-type(legacy NewKeyData path)")
+	// "add-refused-after-scripted-collisions" and "manager-designated-primary-itself" cannot occur on today's tree; they
+	// are counted if an otherwise conforming manager ever does that
 	stubkm.Register()
 	core.Main(m, prop, "manager", map[string]string{"keyset.Manager": "real", "keyset.Handle / validation": "real", "key generation (registry, keygenregistry)": "real",
 		"crypto/rand": "stub (simrng, scripted key-ID draws)", "reference keyset model": "oracle only"})
@@ -255,14 +257,23 @@ func (w *world) observe(after string) {
 		h, err = w.mgr.Handle()
 	}()
 	if !w.m.hasPrimary() {
-		if !w.everPrimary {
-			if err == nil {
-				w.r.Violation("C11/handle-without-primary", fmt.Sprintf("after %s: Handle() succeeded although no primary was ever set (model: %s)", after, w.m))
-			} else {
+		if err != nil {
+			if !w.everPrimary {
 				w.r.Probe("handle-fails-no-primary")
 			}
+			return
 		}
-		return
+		// C11 allows Handle() to succeed as long as what it returns is well-formed ("either fails because no primary was
+		// ever set or returns a keyset with … exactly one primary key, which is ENABLED"): a manager that designates a
+		// primary by itself conforms. The model adopts the designation; compare() enforces the invariants.
+		p, perr := h.Primary()
+		if perr != nil || w.m.find(p.KeyID()) == nil {
+			w.r.Violation("C11/handle-without-primary", fmt.Sprintf("after %s: Handle() succeeded without a usable primary (model: %s, Primary(): %v)", after, w.m, perr))
+			return
+		}
+		w.m.find(p.KeyID()).primary = true
+		w.everPrimary = true
+		w.r.Probe("manager-designated-primary-itself")
 	}
 	if err != nil {
 		w.r.Violation("C11/handle-fails-with-primary", fmt.Sprintf("after %s: Handle() failed (%v) although the keyset has a primary (model: %s)", after, err, w.m))
@@ -534,6 +545,8 @@ func (w *world) step(op string) {
 			op = "Add"
 			if strings.HasPrefix(tpl.name, "STUB-") {
 				r.Probe("add-custom-key-type(legacy NewKeyData path)")
+	// "add-refused-after-scripted-collisions" and "manager-designated-primary-itself" cannot occur on today's tree; they
+	// are counted if an otherwise conforming manager ever does that
 			}
 			func() { defer w.catch("Add"); id, err = w.mgr.Add(kt) }()
 		} else {
@@ -550,7 +563,14 @@ func (w *world) step(op string) {
 		r.Logf("%s(%s/%s) -> id=%d err=%v   [%s]", op, tpl.name, pfx, id, err, before)
 		w.note(op, err)
 		if err != nil {
-			r.Violation("C11/valid-add-refused", fmt.Sprintf("%s of a valid %s template failed: %v", op, tpl.name, err))
+			// C11 does not say that adding must succeed, only that a failed operation leaves the keyset unchanged (observe()
+			// below checks that). A manager that gives up after several colliding ID draws conforms. Without any scripted
+			// collision a refusal of a valid template is still reported: nothing in a correct manager can cause it.
+			if scripted == 0 {
+				r.Violation("C11/valid-add-refused", fmt.Sprintf("%s of a valid %s template failed although no key-ID collision was scripted: %v", op, tpl.name, err))
+			}
+			r.Probe("error-leaves-unchanged-checked")
+			r.Probe("add-refused-after-scripted-collisions")
 		} else {
 			w.addSucceeded(op, id, nil)
 		}
